@@ -55,13 +55,13 @@ def run_cases(ck, res, n_cases, n_interval, exhaustive=False):
         inp = {'kind': kind, 'lookup': lk, 'prime_attr': pa, 'attrs': attrs, 'columns': cols, 't': ts, 'net': net_p.describe()}
         scale = 1 + max(abs(x) for x in uv)
         # ---- the property's oracle
-        if not enga.close(uv[0], rowval('u_0', 0), scale):
+        if not enga.close(uv[0], rowval('u_0', 0), scale, rel=enga.EXACT):
             ck.fail(f'{kind}/value@t0', f'bundle {kind}: value at t = t_0(row) is {uv[0]!r}, that row prescribes u_0 = {rowval("u_0", 0)!r}', inp,
                     expected=rowval('u_0', 0), actual=uv[0])
-        if kind == 'ivp' and ('u_0_prime' in lk or pa) and not enga.close(dv[0], rowval('u_0_prime', 0), scale * 4):
+        if kind == 'ivp' and ('u_0_prime' in lk or pa) and not enga.close(dv[0], rowval('u_0_prime', 0), scale * 4, rel=enga.EXACT):
             ck.fail('ivp/deriv@t0', f'bundle ivp: derivative at t = t_0(row) is {dv[0]!r}, that row prescribes {rowval("u_0_prime", 0)!r}', inp,
                     expected=rowval('u_0_prime', 0), actual=dv[0])
-        if kind == 'bvp' and not enga.close(uv[1], rowval('u_1', 1), scale):
+        if kind == 'bvp' and not enga.close(uv[1], rowval('u_1', 1), scale, rel=enga.EXACT):
             ck.fail('bvp/value@t1', f'bundle bvp: value at t = t_1(row) is {uv[1]!r}, that row prescribes u_1 = {rowval("u_1", 1)!r}', inp,
                     expected=rowval('u_1', 1), actual=uv[1])
         # columns not named in the table never influence the constraint: perturb them, boundary rows unchanged
